@@ -180,14 +180,21 @@ impl Property for C13 {
                     prog.items[at] = Item::Data { width, elems };
                     kind = "undefined-symbol";
                 } else {
-                    let (txt, k): (&str, &'static str) = *t.pick(&[
+                    let v2_extra: &[(&str, &'static str)] = &[
+                        ("#d8", "malformed-directive:missing-operand*"),
+                        ("#d", "malformed-directive:missing-operand*"),
+                        ("#addr", "malformed-directive:missing-operand*"),
+                        ("zq_limit =", "malformed-directive:missing-operand*"),
+                        ("#d8 1 +", "malformed-directive:missing-operand*"),
+                    ];
+                    let (txt, k): (&str, &'static str) = if crate::engine::gen_version() >= 2 && t.chance(1, 3) { *t.pick(v2_extra) } else { *t.pick(&[
                         ("#d8 ,", "malformed-directive:stray-comma"),
                         ("#align", "malformed-directive:missing-operand"),
                         ("#nosuchdirective 1", "malformed-directive:unknown-name"),
                         ("#d8 1 2", "malformed-directive:extra-token"),
                         ("#res", "malformed-directive:missing-operand"),
                         ("#d8 (1", "malformed-directive:unclosed-paren"),
-                    ]);
+                    ]) };
                     prog.items[at] = Item::Raw(txt.to_string());
                     kind = k;
                 }
@@ -228,6 +235,28 @@ impl Property for C13 {
         ctx.render(render);
         let file_text = r.files.iter().find(|f| f.0 == loc.file).map(|f| String::from_utf8_lossy(&f.1).to_string()).unwrap_or_default();
         let before: String = file_text.lines().take(loc.line + 1).collect::<Vec<_>>().join("\n");
+        // A missing operand is only mis-located (the listed finding) when the expression parser can swallow what
+        // follows the line break as the operand. If the next significant line starts a directive (`#`), or the file
+        // ends, there is nothing to swallow and the error must be on the faulty line: a class of its own.
+        // the v2 forms (marked *) are only faults when nothing can be swallowed as their operand
+        let starred = kind == "malformed-directive:missing-operand*";
+        let kind: &'static str = if starred { "malformed-directive:missing-operand" } else { kind };
+        let kind: &'static str = if kind == "malformed-directive:missing-operand" {
+            let next = file_text.lines().skip(loc.line + 1).map(|l| l.trim()).find(|l| !l.is_empty() && !l.starts_with(';'));
+            match next {
+                None => "malformed-directive:missing-operand-at-end-of-file",
+                Some(l) if l.starts_with('#') => "malformed-directive:missing-operand-before-directive",
+                Some(_) => kind,
+            }
+        } else {
+            kind
+        };
+        if kind.starts_with("malformed-directive:missing-operand-") {
+            ctx.label(format!("fault:{}", kind));
+        } else if starred {
+            ctx.skipped = true; // the next line may legitimately continue the expression: not a fault
+            return Verdict::Pass;
+        }
         ctx.nontrivial = !before.is_ascii() || loc.file != "main.asm";
         let mut fs = MemFs::from_files(&r.files);
         let o = sut::assemble(&mut fs, &["main.asm"], &sut::Opts::default());
